@@ -211,9 +211,32 @@ def robustness_grid(da, rng: random.Random, tier_: str, out: Outcome) -> list[di
         for cls in route_classes:
             for name in names:
                 chosen.append((cls, name, rng.choice(vcs)))
+        # ... and once more on a route of every family that consumes the option (a value class only matters
+        # where the option is used: event options are encoded by media requests, timing options by manifests)
+        from dashlive.server.options.types import OptionUsage
+        usage_of: dict[str, Any] = {}
+        for o in OptionsRepository.get_dash_options():
+            usage_of[o.cgi_name] = usage_of.get(o.cgi_name, OptionUsage(0)) | o.usage
+        families = {
+            'manifest': ['manifest-live', 'manifest-vod', 'manifest-n', 'mps-manifest', 'patch'],
+            'media': ['media-num', 'media-vod', 'media-time', 'media-enc', 'init', 'init-enc'],
+            'time': ['time'],
+        }
         for name in names:
+            u = usage_of.get(name, OptionUsage(0))
+            fams = []
+            if u & OptionUsage.MANIFEST:
+                fams.append('manifest')
+            if u & (OptionUsage.VIDEO | OptionUsage.AUDIO | OptionUsage.TEXT):
+                fams.append('media')
+            if u & OptionUsage.TIME:
+                fams.append('time')
             for vc in vcs:
-                chosen.append((rng.choice(list(route_classes)), name, vc))
+                for fam in (fams or ['manifest']):
+                    routes = families[fam]
+                    if name.startswith(('ping__', 'scte35__')) and fam == 'media':
+                        routes = ['media-num', 'media-vod']      # in-band events live in video segments
+                    chosen.append((rng.choice(routes), name, vc))
         combos = chosen
     capped: set[tuple[str, str | None]] = set()
     for cls, name, vc in fixed + combos:
